@@ -136,22 +136,7 @@ def client_answers(ctx):
     released and the run does not terminate).  That assumption is ClientMux.tla's ExactlyOnceAtEnd /
     NoStuckCallback; it is discharged here on the real multiplexer with a reduced budget of C10's schedules."""
     import c10
-    total = 1500 if ctx.quick else 6000
-    seen, scns = set(), []
-    for cfg, share in c10.GEN:
-        g = ctx.tlc("Gen_ClientMux", cfg, workers=1, simulate="num=%d" % int(total * share), depth=300, timeout=2400)
-        for s in g.json_lines("SCN "):
-            k = json.dumps(s)
-            if k not in seen:
-                seen.add(k)
-                scns.append(s)
-    binp = ctx.go_test_bin("internal/app/connectconformance", ["c10", "peers"], race=True)
-    traces, ok, acc = c10.execute(ctx, binp, scns, "TestVerifC10Run", "Trace_ClientMux", "inproc")
-    if ctx.notes.get("unreproduced_hangs") and not ctx.violations and not ctx.known_hits:
-        h = ctx.notes["unreproduced_hangs"][0]
-        raise vf.Machinery("unreproduced hang in the client multiplexer leg: %s schedule=%s" % (h["hang"], json.dumps(h["schedule"])))
-    ctx.cov["traces_validated_against_impl"] += len(ok)
-    ctx.notes["client_answers_leg"] = dict(schedules=len(scns), accepted=len(acc))
+    c10.reduced_leg(ctx, 1500 if ctx.quick else 6000, "client_answers_leg")
 
 
 def run(ctx):
@@ -162,6 +147,10 @@ def run(ctx):
     space = g.json_lines("SCN ")
     space.sort(key=lambda s: json.dumps(s, sort_keys=True))
     rnd = random.Random(ctx.seed)
+    if ctx.replay and "schedule" in json.load(open(ctx.replay)).get("scenario", {}):   # written by the multiplexer leg
+        import c10
+        c10.run(ctx)
+        return
     if ctx.replay:
         pick = [json.load(open(ctx.replay))["scenario"]["abstract"]]
     else:
